@@ -190,3 +190,74 @@ def apply_sel(old, new, sel, nbytes):
         if (sel >> i) & 1:
             old = (old & ~(0xff << (8 * i))) | (new & (0xff << (8 * i)))
     return old
+
+
+class WBScript:
+    """Wishbone master driven by a Python generator: the generator yields ("write", word_adr, data[, sel]),
+    ("read", word_adr), ("wait", n) or ("call", fn) and is sent the read data / None. Used where the next access
+    depends on what was observed (accessor replay on a whole SoC)."""
+    def __init__(self, bus, gen, watch=None, max_wait=400):
+        self.bus, self.gen = bus, gen
+        self.state = "next"
+        self.wait = 0
+        self.res = None
+        self.finished = False
+        self.watch = watch or []          # extra signals sampled every cycle (last sample in self.sample)
+        self.sample = {}
+        self.max_wait = max_wait
+        self.waited = 0
+        self.hung = None
+        self.accesses = 0
+        self.cur = None
+
+    def signals(self):
+        b = self.bus
+        return [b.ack, b.err, b.dat_r] + self.watch
+
+    def step(self, v, c):
+        b = self.bus
+        self.sample = v
+        self.cycle = c
+        if self.state == "req":
+            if v[b.ack] or v[b.err]:
+                self.res = {"dat_r": umask(b.dat_r, v[b.dat_r]), "err": v[b.err], "cycle": c}
+                self.state = "next"
+                self.accesses += 1
+                self.waited = 0
+            else:
+                self.waited += 1
+                if self.waited > self.max_wait:
+                    self.hung = {"cycle": c, "access": self.cur}
+                    self.res = {"dat_r": None, "err": 1, "hung": True, "cycle": c}
+                    self.state = "next"
+                else:
+                    return None
+        if self.state == "wait":
+            self.wait -= 1
+            if self.wait > 0:
+                return {b.cyc: 0, b.stb: 0}
+            self.state = "next"
+            self.res = None
+        while self.state == "next":
+            try:
+                op = self.gen.send(self.res)
+            except StopIteration:
+                self.finished = True
+                return {b.cyc: 0, b.stb: 0}
+            self.res = None
+            if op[0] == "call":
+                self.res = op[1](self)
+                continue
+            if op[0] == "wait":
+                self.state, self.wait = "wait", op[1]
+                return {b.cyc: 0, b.stb: 0}
+            self.cur = op
+            self.state = "req"
+            if op[0] == "write":
+                sel = op[3] if len(op) > 3 else (1 << len(b.sel)) - 1
+                return {b.cyc: 1, b.stb: 1, b.we: 1, b.adr: op[1], b.dat_w: op[2], b.sel: sel}
+            return {b.cyc: 1, b.stb: 1, b.we: 0, b.adr: op[1], b.sel: (1 << len(b.sel)) - 1}
+        return None
+
+    def done(self):
+        return self.finished
